@@ -203,6 +203,122 @@ def chain_case(rnd, recs, ctx):
         ctx.nontrivial(json.dumps(["chain", tag, hs]))
 
 
+def merger_kind(cls, field):
+    """which merger a field declares, read from the class annotations directly (not from the table the merge code built for itself)"""
+    import typing
+    hint = typing.get_type_hints(cls, include_extras=True)[field]
+    if typing.get_origin(hint) is typing.Annotated:
+        for a in typing.get_args(hint)[1:]:
+            nm = type(a).__name__
+            if nm in ("Concat", "Unite", "Merge"):
+                return nm[0].lower()
+            if nm == "DictMerge":
+                if type(a.value_merger).__name__ != "Merge":
+                    raise core.Machinery("DictMerge with another value merger than Merge on %s.%s" % (cls.__name__, field))
+                return "d"
+            if nm in ("UseFirst", "UseLast", "Forbid", "ApplyFunc"):
+                raise core.Machinery("merger %s on %s.%s is outside the instance language" % (nm, cls.__name__, field))
+    return "s"
+
+
+def inst_data(obj):
+    """a model instance as data for the judge: its SET fields, grouped by declared merger kind"""
+    out = {"s": [], "c": [], "u": [], "m": [], "d": []}
+    for field in sorted(vars(obj)):
+        v = getattr(obj, field)
+        kind = merger_kind(type(obj), field)
+        if kind == "s":
+            out["s"].append({"k": field, "v": repr(v)})
+        elif kind == "c":
+            out["c"].append({"k": field, "v": [repr(x) for x in v]})
+        elif kind == "u":
+            out["u"].append({"k": field, "v": sorted(repr(x) for x in v)})
+        elif kind == "m":
+            out["m"].append({"k": field, "v": inst_data(v)})
+        else:
+            out["d"].append({"k": field, "v": [{"k": str(k), "v": inst_data(x)} for k, x in v.items()]})
+    return out
+
+
+def rnd_global(rnd):
+    """a GlobalOptionsDTO as a handler would fill it: scalars, per-family options with aggregates, VRFs with route targets and peer groups"""
+    from annet.mesh.device_models import GlobalOptionsDTO
+    g = GlobalOptionsDTO()
+    if rnd.random() < 0.5:
+        g.router_id = rnd.choice(["1.1.1.1", "1.1.1.1", "2.2.2.2"])
+    if rnd.random() < 0.4:
+        g.multipath = rnd.choice([4, 4, 8])
+    if rnd.random() < 0.3:
+        g.local_as = rnd.choice([65001, "65001", 65002])
+    for fam in rnd.sample(["ipv4_unicast", "ipv6_unicast", "l2vpn_evpn"], rnd.randint(0, 2)):
+        fo = getattr(g, fam)
+        if rnd.random() < 0.5:
+            fo.multipath = rnd.choice([2, 2, 16])
+        if rnd.random() < 0.5:
+            fo.aggregate.routes = tuple(rnd.sample(["10.0.0.0/8", "10.1.0.0/16", "192.168.0.0/16"], rnd.randint(1, 2)))
+        if rnd.random() < 0.3:
+            fo.aggregate.policy = rnd.choice(["AGG", "AGG", "AGG2"])
+    for name in rnd.sample(["A", "B", "C"], rnd.randint(0, 2)):
+        v = g.vrf[name]
+        if rnd.random() < 0.5:
+            v.import_policy = rnd.choice(["IMP", "IMP", "IMP2"])
+        if rnd.random() < 0.6:
+            v.rt_import = tuple(rnd.sample(["65000:1", "65000:2", "65000:3"], rnd.randint(1, 2)))
+        if rnd.random() < 0.3:
+            v.rt_export = tuple(rnd.sample(["65000:1", "65000:9"], rnd.randint(0, 2)))
+        if rnd.random() < 0.4:
+            grp = v.groups[rnd.choice(["TOR", "SPINE"])]
+            grp.families = set(rnd.sample(FAMS, rnd.randint(1, 2)))
+            if rnd.random() < 0.5:
+                grp.remote_as = rnd.choice([65010, 65010, 65020])
+        if rnd.random() < 0.3:
+            v.ipv4_unicast.aggregate.routes = ("10.9.0.0/16",)
+    for name in rnd.sample(["TOR", "SPINE", "RR"], rnd.randint(0, 2)):
+        grp = g.groups[name]
+        if rnd.random() < 0.7:
+            grp.families = set(rnd.sample(FAMS, rnd.randint(1, 3)))
+        if rnd.random() < 0.4:
+            grp.mtu = rnd.choice([9000, 9000, 1500])
+        if rnd.random() < 0.3:
+            grp.description = rnd.choice(["d1", "d1", "d2"])
+    if rnd.random() < 0.3:
+        ev = g.l2vpn[rnd.choice(["EV1", "EV2"])]
+        ev.vid = rnd.choice([100, "100", 200])
+        ev.rt_import = tuple(rnd.sample(["65000:100", "65000:200"], rnd.randint(1, 2)))
+    return g
+
+
+def inst_case(rnd, recs, ctx):
+    from annet.mesh import basemodel
+    a, b, c = rnd_global(rnd), rnd_global(rnd), rnd_global(rnd)
+    rec = {"id": "inst-%d" % len(recs), "kind": "inst", "a": inst_data(a), "b": inst_data(b), "raised": False, "out": inst_data(a), "hasC": True,
+           "assocEq": True}
+    try:
+        m = basemodel.merge(a, b)
+        rec["out"] = inst_data(m)
+    except basemodel.MergeForbiddenError:
+        rec["raised"] = True
+    except Exception as e:
+        rec["raised"] = True
+        rec["exc"] = repr(e)
+    rec["aAfter"], rec["bAfter"] = inst_data(a), inst_data(b)
+
+    def attempt(f):
+        try:
+            return ("v", json.dumps(inst_data(f()), sort_keys=True))
+        except basemodel.MergeForbiddenError:
+            return ("refused",)
+    left = attempt(lambda: basemodel.merge(basemodel.merge(a, b), c))
+    right = attempt(lambda: basemodel.merge(a, basemodel.merge(b, c)))
+    flat = attempt(lambda: basemodel.merge(a, b, c))
+    # (element order of Unite fields is not part of an instance: inst_data sorts them)
+    rec["assocEq"] = left == right == flat
+    recs.append(rec)
+    ctx.count()
+    if rec["a"]["d"] and rec["b"]["d"]:
+        ctx.nontrivial(json.dumps([rec["a"], rec["b"]]))
+
+
 def proj(cfg):
     out = []
     for p in cfg.peers:
@@ -348,6 +464,9 @@ def run(ctx):
             rec["exc"] = repr(e)
         recs.append(rec)
         ctx.count()
+    # ---- merge laws on whole model instances (GlobalOptionsDTO: scalars, Concat tuples, Unite sets, nested Merge, DictMerge of models)
+    for k in range(400 if quick else 8000):
+        inst_case(rnd, recs, ctx)
     ctx.sample({"handlers": recs[0]["hs"], "meta": recs[0]["meta"], "first_run": recs[0]["runs"][0]})
     slim = [{k: v for k, v in r.items() if k not in ("meta", "exc", "hs_src")} for r in recs]
     verd = ctx.judge("trace/Trace_Mesh.tla", "trace/Trace.cfg", slim, shards=8)
